@@ -346,8 +346,14 @@ func (p *Prog) isZeroTest(cond ssa.Value, truth bool, depth int) bool {
 	}
 	base, neg := condOf(cond)
 	call, isCall := base.(*ssa.Call)
-	if !isCall || depth > 2 || truth == neg {
+	if !isCall || depth > 2 {
 		return false
+	}
+	// the helper's answer on this edge: true (isNothingToDivide(...)) or false (!isDividable(...))
+	want := truth != neg
+	wantS, otherS := "true", "false"
+	if !want {
+		wantS, otherS = "false", "true"
 	}
 	h := p.Callee(call)
 	if h == nil || !p.IsProduct(h) || !returnsBoolOnly(h) || len(h.Blocks) == 0 {
@@ -376,26 +382,26 @@ func (p *Prog) isZeroTest(cond ssa.Value, truth bool, depth int) bool {
 	okVal = func(v ssa.Value, b *ssa.BasicBlock) bool {
 		switch x := v.(type) {
 		case *ssa.Const:
-			if constString(x) == "false" {
+			if constString(x) == otherS {
 				return true
 			}
-			return !reach[b] // true: only behind a zero test
+			return !reach[b] // the answer in question: only behind a zero test
 		case *ssa.Phi:
 			for i, ev := range x.Edges {
 				pred := x.Block().Preds[i]
 				if c, isC := ev.(*ssa.Const); isC {
-					if constString(c) == "true" && reach[pred] && viaPlain[[2]*ssa.BasicBlock{pred, x.Block()}] {
+					if constString(c) == wantS && reach[pred] && viaPlain[[2]*ssa.BasicBlock{pred, x.Block()}] {
 						return false
 					}
 					continue
 				}
-				if !p.isZeroTest(ev, true, depth+1) && reach[pred] {
+				if !p.isZeroTest(ev, want, depth+1) && reach[pred] {
 					return false
 				}
 			}
 			return true
 		}
-		return p.isZeroTest(v, true, depth+1) || !reach[b]
+		return p.isZeroTest(v, want, depth+1) || !reach[b]
 	}
 	for _, b := range h.Blocks {
 		ret, isRet := b.Instrs[len(b.Instrs)-1].(*ssa.Return)
